@@ -163,6 +163,40 @@ def _task_special(_):
                                   rep, size=len(sig))
         res.count('states')
         res.count('nontrivial')
+    # descriptors inside variants: the library has no way of sending them,
+    # other implementations do (an 'h' in an a{sv} options dictionary)
+    for sig, refvals in (('v', [Var('h', 5)]),
+                         ('a{sv}', [[['fd', Var('h', 7)],
+                                     ['n', Var('s', 'x')]]]),
+                         ('hv', [3, Var('(sh)', ['y', 4])]),
+                         ('av', [[Var('h', 8), Var('ah', [9, 10])]])):
+        ts = R.parse_sig(sig)
+        tx = R.as_plain(ts, refvals)
+        for le in (True, False):
+            for off in range(8):
+                res.count('evaluations')
+                res.count('transitions')
+                rep = {'dir': 'fds', 'sig': sig, 'values': repr(refvals),
+                       'little': le, 'offset': off}
+                want_fds = []
+                want = R.encode(ts, refvals, off, le, fds=want_fds)
+                try:
+                    m, out = M.unmarshal(sig, bytes([CS.FILL]) * off + want,
+                                         off, le, list(want_fds))
+                    if m != len(want) or not R.same(out, tx):
+                        res.violation(
+                            '%s/fd-in-variant/%s' % (PROP, sig),
+                            'reference encoding of %r under %r (offset %d, '
+                            'little=%s) with descriptors %r decoded to %r'
+                            % (tx, sig, off, le, want_fds, out), rep,
+                            size=len(sig))
+                except Exception as e:
+                    res.violation('%s/fd-in-variant-raises/%s/%s'
+                                  % (PROP, type(e).__name__, sig),
+                                  'descriptor inside a variant, %r: %r'
+                                  % (sig, e), rep, size=len(sig))
+        res.count('states')
+        res.count('nontrivial')
     # the alignment rule in isolation: every type code x offsets 0..15
     codes = dict(R.ALIGN)
     codes['header'] = 8
